@@ -1,0 +1,34 @@
+//go:build verif
+
+package vgirpc
+
+import (
+	"github.com/apache/arrow-go/v18/arrow"
+	"github.com/apache/arrow-go/v18/arrow/ipc"
+)
+
+// Constants and the one unexported writer the C01 (wire helpers) model is
+// stated over. Add-only; compiled in only with -tags verif.
+
+func init() {
+	verifConstProviders = append(verifConstProviders, func() []VerifConst {
+		return []VerifConst{
+			verifBytes("k_method", MetaMethod),
+			verifBytes("k_request_version", MetaRequestVersion),
+			verifBytes("k_protocol_version", MetaProtocolVersion),
+			verifBytes("k_request_id", MetaRequestID),
+			verifBytes("k_log_level", MetaLogLevel),
+			verifBytes("k_stream_state", MetaStreamState),
+			verifBytes("k_call_state", MetaCallState),
+			verifBytes("k_location", MetaLocation),
+			verifBytes("k_shm_offset", MetaShmOffset),
+			verifBytes("wire_version", ProtocolVersion),
+		}
+	})
+}
+
+// VerifWriteStateTokenBatch exposes writeStateTokenBatch, the function that
+// stamps a stream's continuation tokens on a zero-row batch.
+func VerifWriteStateTokenBatch(w *ipc.Writer, schema *arrow.Schema, token, callToken []byte) error {
+	return writeStateTokenBatch(w, schema, token, callToken)
+}
